@@ -306,6 +306,24 @@ func c10Inputs(c *core.Ctx) []c10Input {
 	for _, h := range hostile {
 		ins = append(ins, c10Input{"hostile", h})
 	}
+	// packed messages whose event stream is as short as a stream can be, under every label: whatever a decoder does
+	// with the label, zero, one or two bytes of stream must not take it beyond them
+	for _, comp := range []string{"", "gzip", "text", "GZIP"} {
+		var streams [][]byte
+		streams = append(streams, []byte{})
+		for _, b := range []byte{0x00, 0x1f, 0x8b, 0x92, 0xc0, 0xc4, 0xff} {
+			streams = append(streams, []byte{b}, []byte{0x1f, b}, []byte{b, 0x8b})
+		}
+		for _, st := range streams {
+			pm := &protocol.PackedForwardMessage{Tag: "t", EventStream: st}
+			if comp != "" {
+				pm.Options = &protocol.MessageOptions{Compressed: comp}
+			}
+			if b, err := pm.MarshalMsg(nil); err == nil {
+				ins = append(ins, c10Input{"short-stream:" + comp, b})
+			}
+		}
+	}
 	// amplifying containers: small well-formed gzip members whose content is thousands of times longer (zeros, or a
 	// long run of one valid entry), bare and as the event stream of a packed message marked compressed=gzip.  Nothing
 	// in the decoders may inflate them on its own account: memory stays proportionate to the bytes given.
